@@ -40,14 +40,21 @@ def expand(node: Node):
     references = list()
     node.find_all_descendants(names.REFERENCES, references)
     ids = _register_ids(node)
+    # Resolve every reference before touching the tree, so that a failure
+    # leaves the tree as it was
     for reference in references:
         if reference.content not in ids:
             msg = f"ID not found for REFERENCE '{reference}'"
             raise ValueError(msg)
+    for reference in references:
         source_node = ids[reference.content]
         destination_node = reference.parent
+        # The copies take the place of the references node; children that
+        # follow it (e.g. role) stay behind them
+        index = destination_node.children.index(reference)
         destination_node.remove_child(reference)
         Node.delete_node_instance(reference.id)
         for source_child in source_node.children:
             source_child_copy = source_child.copy()
-            destination_node.add_child(source_child_copy)
+            destination_node.add_child(source_child_copy, index)
+            index += 1
